@@ -65,7 +65,7 @@ impl World for W6 {
             },
             Prop {
                 id: "C33",
-                batches: vec![Batch { name: "timing", quick: 6_000, thorough: 250_000, faulty: true }, Batch { name: "raft-health-loop", quick: 600, thorough: 20_000, faulty: true }],
+                batches: vec![Batch { name: "timing", quick: 6_000, thorough: 250_000, faulty: true }, Batch { name: "raft-health-loop", quick: 200, thorough: 20_000, faulty: true }],
                 rule: "one run = a standalone real Coordinator (heartbeat timeout 3-15 s, worker capacity 1-3) and 1-4 simulated workers driven sequentially through the real handlers by 6-40 events at tape-chosen virtual instants: time advances (incl. exactly timeout and timeout+-1 ms), heartbeats, health sweeps, deploys with and without worker affinity, manual migrations, drains, registrations and deregistrations; all worker calls succeed so only timing is in play. A reference worker table is stepped alongside: a sweep marks a Ready worker unhealthy iff its last heartbeat is older than the timeout (never earlier, never later), a heartbeat restores it, no deploy/migration/drain target is unhealthy, draining, full or deregistered at plan time, a pinned pipeline goes to its pin whenever the pin is available; the coordinator's worker statuses equal the table after every event. Non-trivial = a sweep marked a worker or >= 2 deploys; distinct = distinct decoded-trace hash.",
                 real: vec!["Coordinator::{heartbeat, health_sweep, plan_deploy_group, migrate, drain_worker}, WorkerNode::is_available, RoundRobin/LeastLoaded placement", "cluster_routes handlers", "std::time::Instant via the link-level clock seam coupled to the paused tokio clock"],
                 stub: vec!["workers (SimWorker, always succeed)", "clients"],
